@@ -196,6 +196,7 @@ func main() {
 		outdir := os.Args[3]
 		fs.Parse(os.Args[4:])
 		os.MkdirAll(outdir, 0o755)
+		os.Setenv("VERIF_OUTDIR", outdir) // where a property's run may leave diagnostics of a case
 		cf, _ := os.Create(filepath.Join(outdir, "cases.txt"))
 		ff, _ := os.Create(filepath.Join(outdir, "fails.txt"))
 		g := &Gen{Tier: *tier, Seed: *seed, R: NewRng(*seed), prop: p,
